@@ -184,10 +184,28 @@ package protocol
 //@   replay-go al := []byte{'%', '+', ' ', 'A', '0', '/', 0xff, 0, '*', '?', 'a', 'G'}; var rec func(x []byte, d int); rec = func(x []byte, d int) { r := verifPathRoundTrip(x); if !bytes.Equal(r, x) { fmt.Printf("VCGO-VIOLATED decodeArgAppendNoPlus(AppendQuotedPath(%q)=%q) = %q\n", x, bytesconv.AppendQuotedPath(nil, x), r); panic("stop") }; if d == 0 { return }; for _, c := range al { rec(append(append([]byte{}, x...), c), d-1) } }; rec(nil, 4)
 //@   top-ensures @C17 len(r) == len(x) && forall(k, 0, len(x), r[k] == qx[k] && qx[k] == old(x[k]))
 
+//@ ghost var ckLo int scratch
+// C17 (cookie pieces are taken verbatim): only 0x20 at either end and, for values, one pair of surrounding double
+// quotes are dropped; every other byte of the piece is returned as it is.
 //@ func decodeCookieArg(dst, src, skipQuotes) r
-//@   props C03
-//@   modifies mem
+//@   props C03, C17
+//@   modifies mem, ckLo
 //@   allocates
+//@   witness src = "\t a\t ", skipQuotes = false
+//@   replay-go al := []byte{'\t', ' ', '"', 'a', 0xc2, 0x85, '\n', 0}; var rec func(x []byte, d int); rec = func(x []byte, d int) { if len(x) > 0 && x[0] != ' ' && x[len(x)-1] != ' ' { r := decodeCookieArg(nil, append([]byte{}, x...), false); if !bytes.Equal(r, x) { fmt.Printf("VCGO-VIOLATED decodeCookieArg(%q) = %q\n", x, r); panic("stop") } }; if d == 0 { return }; for _, c := range al { rec(append(append([]byte{}, x...), c), d-1) } }; rec(nil, 4)
+//@   ensures @C17 len(r) <= len(src)
+//@   ensures @C17 len(src) > 0 && old(src[0]) != ' ' && old(src[len(src)-1]) != ' ' && (!skipQuotes || old(src[0]) != '"') ==> len(r) == len(src) && forall(k, 0, len(src), r[k] == old(src[k]))
+//@   ghostset before append: ckLo = off(arg1) - off(old(src))
+//@   ensures @C17 0 <= ckLo && ckLo + len(r) <= len(src) && forall(k, 0, len(src), k >= ckLo && k < ckLo + len(r) ==> r[k-ckLo] == old(src[k]))
+//@   ensures @C17 forall(k, 0, len(src), k < ckLo ==> old(src[k]) == ' ' || (skipQuotes && k == ckLo-1 && old(src[k]) == '"'))
+//@   ensures @C17 forall(k, 0, len(src), k >= ckLo+len(r) ==> old(src[k]) == ' ' || (skipQuotes && k == ckLo+len(r) && old(src[k]) == '"'))
+//@   loop 0:
+//@     invariant @C17 sameArray(src, old(src)) && off(src) >= off(old(src)) && off(src) + len(src) == off(old(src)) + len(old(src)) && len(src) >= 0
+//@     invariant @C17 forall(k, 0, len(old(src)), k < off(src) - off(old(src)) ==> old(src[k]) == ' ')
+//@   loop 1:
+//@     invariant @C17 sameArray(src, old(src)) && off(src) >= off(old(src)) && off(src) + len(src) <= off(old(src)) + len(old(src)) && len(src) >= 0
+//@     invariant @C17 forall(k, 0, len(old(src)), k < off(src) - off(old(src)) ==> old(src[k]) == ' ')
+//@     invariant @C17 forall(k, 0, len(old(src)), k >= off(src) - off(old(src)) + len(src) ==> old(src[k]) == ' ')
 
 //@ func getCookieKey(dst, src) r
 //@   props C03
